@@ -847,3 +847,18 @@ Proof.
   fold (count_inner (subtrees r)). rewrite Hout. cbn [bind]. rewrite Heq.
   rewrite (fprofile_forest _ _ _ HB). cbn [profile_forest fold_right]. rewrite zip_add_nil_r. reflexivity.
 Qed.
+
+(* ---------- combined statements used by props/C18.v and props/C19.v ---------- *)
+Lemma levels_depth_counts T r k :
+  t_root T = Some r -> k < length (profile r) ->
+  length (levels T) = S (length (profile r)) /\
+  nth (S k) (levels T) (0, 0, 0) =
+    (count_inner (upto_depth k r) + count_leaf (upto_depth k r),
+     count_inner (upto_depth k r), count_leaf (upto_depth k r)).
+Proof. intros Hr Hk. split; [exact (levels_length T r Hr)|exact (levels_depth T r k Hr Hk)]. Qed.
+
+Lemma built_ids o keys vals T r :
+  build o keys vals = Ok T -> t_root T = Some r ->
+  NoDup (map tree_id (subtrees r)) /\
+  Permutation (map tree_id (subtrees r)) (List.seq 0 (length (subtrees r))).
+Proof. intros Hb Hr. split; [eapply built_ids_nodup; eassumption|eapply built_ids_range; eassumption]. Qed.
